@@ -876,6 +876,24 @@ func (e *Env) call(x SCall) SVal {
 		k := e.elab(x.Args[0])
 		ks, _, _ := v.T.Sort.arrayParts()
 		return SVal{T: Select(v.T, coerce(k.T, ks)), Typ: tBool}
+	case "itersum":
+		// itersum(): in the invariants of a loop ranging over an integer-valued map, the sum of the values of the keys visited so far
+		argn(0)
+		v, ok := e.vars["$isum"]
+		if !ok {
+			efail("itersum() is only available in the invariants of a loop ranging over a map with integer values")
+		}
+		return v
+	case "msum":
+		// msum(m): the sum of the values of the integer-valued map m in the current heap
+		argn(1)
+		m := e.elab(x.Args[0])
+		mt, ok := m.Typ.Underlying().(*types.Map)
+		if !ok || sortOf(mt.Elem()) != SInt || sortOf(mt.Key()) == nil {
+			efail("msum(m): m must be a map with integer values")
+		}
+		d, vv, _ := e.p.mapHeaps(mt)
+		return SVal{T: MapSum(Select(e.cur.H(e.p, d), m.T), Select(e.cur.H(e.p, vv), m.T)), Typ: tInt}
 	case "alloc":
 		argn(0)
 		return SVal{T: e.cur.alloc, Typ: tInt}
